@@ -23,7 +23,7 @@ from vk.report import Collector, Report, run_parallel, std_args
 
 PROP = "C05"
 HARNESS = os.path.join(os.path.dirname(os.path.abspath(__file__)), "h05.py")
-LIBS = ["comp", "alias", "conn", "redecl", "func", "imports", "assembled"]
+LIBS = ["comp", "alias", "conn", "redecl", "func", "imports", "assembled", "pkgconst"]
 
 
 def repo_pairs(path):
@@ -171,7 +171,7 @@ def main():
     cov["exhaustive"] = all(v.kind == "confirmed" for v in vs)
     cov["functions_encoded"] = ["pymoca.tree.flatten (find_class, flatten_class, build_instance_tree, flatten_symbols, expand_connectors, annotate_states) and casadi generator.generate, "
                                 "called repeatedly on one tree (executed symbolically by CrossHair)"]
-    cov["bounds"] = ("7 generated libraries (component, type alias in a package, connectors, redeclare of a class holding a modified component, a function calling a function, qualified/unqualified imports, a package assembled from three files with Tree.extend) of 2-3 requestable classes with 4 symbolic integer literals each; all request sequences of length 2 (thorough: length 3, each step flatten or "
+    cov["bounds"] = ("8 generated libraries (package constants of scalar, array and class type pulled in through dotted references from scalar and array components, component, type alias in a package, connectors, redeclare of a class holding a modified component, a function calling a function, qualified/unqualified imports, a package assembled from three files with Tree.extend) of 2-3 requestable classes with 4 symbolic integer literals each; all request sequences of length 2 (thorough: length 3, each step flatten or "
                      "CasADi generate); concrete: ordered class pairs of the repository's test models (quick: every second file), real CLI with every ordered pair of models per library")
     rep.assumptions += ["the oracle is the same request on an independently unpickled tree", "results are compared as Node.to_json structures (symbolic leaves compared by the solver)"]
     return rep.finish()
